@@ -73,6 +73,17 @@ type stepObs struct {
 	Note     string      `json:"note,omitempty"`
 	AtMs     int64       `json:"at_ms"`
 	Deferred bool        `json:"deferred"`
+	Joined   string      `json:"joined,omitempty"` // join of a waiting lookup: "cached" | "absent" | "" (nothing was waiting)
+	JoinRT   string      `json:"join_rt,omitempty"`
+	JoinName string      `json:"join_name,omitempty"`
+}
+
+// a lookup that is waiting for its resource (a real Get with a deadline, started by lookup_async)
+type asyncGet struct {
+	rt    xdsresource.ResourceType
+	rtKey string
+	name  string
+	ch    chan interface{}
 }
 
 type sysObs struct {
@@ -104,6 +115,7 @@ type sysRun struct {
 	suites   *suites
 	t0       time.Time
 	blocked  *fakeStream // the stream whose Send is being held
+	pending  *asyncGet   // the lookup that is waiting, if any
 }
 
 func (r *sysRun) curStream() *fakeStream { return r.ads.stream(-1) }
@@ -538,6 +550,73 @@ func runSys(raw json.RawMessage) (out interface{}, err error) {
 			run.suites.register(op.What, op.Port)
 		case "resolve":
 			st.Lookup = run.resolve(cancelled, op.Name)
+		case "lookup_async":
+			// a lookup that WAITS: a real Get with a deadline of op.Ms.  When the name is cached (or the client is closed, or
+			// another lookup is already waiting) it is an ordinary lookup; otherwise the step ends once the notifier is registered
+			// (the subscription is then queued: both happen in one critical section of Get) and is observed as a miss; the
+			// caller's result is observed by the next "join".
+			rt := rtNames[op.RT]
+			_, cached := run.m.VerifCachePeek(rt, op.Name)
+			if cached || run.m.VerifClosed() || run.pending != nil {
+				res, err := getSafely(run.m, cancelled, rt, op.Name)
+				st.Lookup = res
+				if err != nil {
+					st.Note = err.Error()
+				}
+				break
+			}
+			ag := &asyncGet{rt: rt, rtKey: op.RT, name: op.Name, ch: make(chan interface{}, 1)}
+			ms := op.Ms
+			if ms <= 0 {
+				ms = 1500
+			}
+			go func() {
+				ctx, cancelW := context.WithTimeout(context.Background(), time.Duration(ms)*time.Millisecond)
+				defer cancelW()
+				res, _ := getSafely0(run.m, ctx, rt, op.Name)
+				ag.ch <- res
+			}()
+			registered := false
+			for dl := time.Now().Add(3 * time.Second); !registered && time.Now().Before(dl); {
+				for _, n := range run.m.VerifNotifierNames(rt) {
+					if n == op.Name {
+						registered = true
+					}
+				}
+				if !registered {
+					select {
+					case res := <-ag.ch: // returned at once (a hit after all, or an error)
+						ag.ch <- res
+						registered = true
+					default:
+						time.Sleep(100 * time.Microsecond)
+					}
+				}
+			}
+			run.pending = ag
+			st.Lookup = C("LMiss")
+		case "join":
+			// the waiting lookup returns: with the resource if it is cached by now (it was woken, or reads it when its deadline
+			// passes), with an error otherwise.  Joined tells the model side which of the two the cache says it must be.
+			if ag := run.pending; ag != nil {
+				run.pending = nil
+				st.JoinRT, st.JoinName = ag.rtKey, ag.name
+				var res interface{}
+				select {
+				case res = <-ag.ch:
+				case <-time.After(6 * time.Second):
+					res = C("LHang")
+				}
+				if _, cached := run.m.VerifCachePeek(ag.rt, ag.name); cached {
+					st.Joined = "cached"
+					st.Lookup = res
+				} else {
+					st.Joined = "absent"
+					if l, ok := res.([]interface{}); !(ok && len(l) > 0 && l[0] == "LMiss") {
+						st.Lookup = res // anything but an error is wrong here
+					}
+				}
+			}
 		case "dump":
 			// the public Dump renders the whole cache; an observation, nothing may change
 			run.m.Dump()
